@@ -25,6 +25,41 @@ contract('substitution._split',
          params={'s': 'str'},
          returns='Tuple[str, Opt[str], Opt[str], Opt[str], Opt[str]]',
          ensures=[Clause('result == split_spec(s)', carries='C04', label='SplitSpec'),
-                  Clause("implies('$' in s, len(result[3]) < len(s))", label='suffix-shorter')],
+                  Clause("implies('$' in s, result[3] is not None and len(val(result[3])) < len(s))", label='suffix-shorter'),
+                  Clause("implies('$' not in s, result == (s, None, None, None, None))", label='no-dollar'),
+                  Clause("implies(result[1] is not None, result[1] != '' and result[2] is not None and result[4] is not None)", label='name-shape'),
+                  Clause("implies(result[1] is None, result[2] is None and result[4] is None)", label='noname-shape'),
+                  Clause("implies(result[4] is not None, result[4] == 'define' or result[4] == 'env')", label='kind')],
          raises=[Raise('ZConfig.SubstitutionSyntaxError', when='split_err(s)', carries='C04',
-                       label='syntax')])
+                       then=[Clause("'$' in s", label='has-dollar')], label='syntax')])
+
+from pyvc.api import shared_dict
+shared_dict('defines', 'str', 'str')
+
+prim('env_get', 'str -> Opt[str]', native=S.env_get, args=['name'])
+
+assumed('os.getenv', params={'key': 'str'}, returns='Opt[str]', pure=True,
+        ensures=[Clause('result == env_get(key)')],
+        notes='os.getenv(n) is the value of the environment variable n or None')
+
+contract('substitution.substitute',
+         params={'s': 'str', 'mapping': 'Ref[dict:defines]'},
+         returns='str',
+         ensures=[Clause('subst_spec(s, mapping.items) == (0, result)', carries='C04', label='Subst'),
+                  Clause("implies('$' not in s, result == s)", carries='C04', label='no-dollar-identity')],
+         raises=[Raise('ZConfig.SubstitutionSyntaxError', when='subst_spec(s, mapping.items)[0] == 1',
+                       carries='C04', label='syntax'),
+                 Raise('ZConfig.SubstitutionReplacementError', when='subst_spec(s, mapping.items)[0] == 2',
+                       then=[Clause('exc.source == s', carries='C04', label='source'),
+                             Clause('exc.name == subst_spec(s, mapping.items)[1]', carries='C04', label='name'),
+                             Clause('exc.lineno is None and exc.url is None', label='no-position-yet')],
+                       carries='C04', label='replacement')],
+         loops=[Loop(invariant=[Clause("prepend(result, subst_spec(orelse(rest, ''), mapping.items)) == subst_spec(s, mapping.items)",
+                                       carries='C04', label='fold')],
+                     decreases="len(orelse(rest, ''))",
+                     locals={'rest': 'Opt[str]', 'name': 'Opt[str]', 'namecase': 'Opt[str]',
+                             'vtype': 'Opt[str]', 'v': 'Opt[str]'})])
+
+contract('substitution.isname',
+         params={'s': 'str'}, returns='bool',
+         ensures=[Clause('result == (len(s) > 0 and name_len(s, 0) == len(s))', carries='C04', label='isname')])
